@@ -318,7 +318,7 @@ def gen_history(draw, tier="quick"):
             op["shift"] = draw(st.lists(st.floats(-0.3, 0.3), min_size=dim, max_size=dim))
             op["vals"] = draw(st.lists(st.floats(lo, hi), min_size=ncond, max_size=ncond))
         elif k == "model_inplace":
-            op["name"] = draw(st.sampled_from(["var", "len_scale"] + (["anis", "angles"] if dim > 1 else [])))
+            op["name"] = draw(st.sampled_from(["var", "len_scale"] + (["anis", "angles"] if dim > 1 else []) + (["opt", "opt"] if spec["cls"] in ("Matern", "Stable") else [])))
             op["factor"] = draw(st.one_of(logfloat(1.2, 2.5), logfloat(0.4, 0.85)))
         elif k == "reassign":
             op["what"] = draw(st.sampled_from(["model", "mean", "trend", "normalizer"]))
@@ -461,6 +461,16 @@ def check_history(case, rec):
                     elif nm == "len_scale":
                         m.len_scale = m.len_scale * fac
                         spec["len_scale"] = float(m.len_scale)
+                    elif nm == "opt":
+                        # only a shape parameter changes (Matern nu / Stable alpha), kept inside its bounds
+                        oname = "nu" if spec["cls"] == "Matern" else "alpha"
+                        lo_, hi_ = (0.3, 8.0) if oname == "nu" else (0.4, 2.0)
+                        cur = float(getattr(m, oname))
+                        new_v = min(max(cur * fac, lo_), hi_)
+                        if new_v == cur:
+                            new_v = min(max(cur / fac, lo_), hi_)
+                        setattr(m, oname, new_v)
+                        spec["opt"] = dict(spec.get("opt", {}), **{oname: float(new_v)})
                     elif nm == "anis":
                         a = np.array(m.anis)
                         a[0] *= fac
